@@ -626,7 +626,7 @@ class UrwidImageScreen(urwid.raw_display.Screen):
         if not isinstance(screen_canv, urwid.CompositeCanvas):
             if self._ti_image_cviews:
                 self.clear_images()
-                self._ti_image_cviews.clear()
+                self._ti_image_cviews = frozenset()
             return
 
         def process_shard_tails():
